@@ -177,7 +177,7 @@ AlterStmts(t, sp) ==
          modify |-> {St("modify", t, sp, <<c[1], q>>, <<>>, "", "") : c \in cs, q \in ColSpells},
          unique |-> {St("unique", t, sp, <<"", "same">>, l, cn, "") : l \in one \cup two, cn \in CNames},
          pk |-> {St("pk", t, sp, <<"", "same">>, l, cn, "") : l \in one \cup two, cn \in CNames},
-         default |-> UNION {{St("default", t, sp, <<"", "same">>, l, cn, v) : l \in one, v \in (IF cn = "" THEN {"v1", "v2"} ELSE {"v1", "v3"})} : cn \in CNames},
+         default |-> UNION {{St("default", t, sp, <<"", "same">>, l, cn, v) : l \in one, v \in (IF cn = "" THEN {"v1", "v2"} ELSE {"v1", "v3", "v4"})} : cn \in CNames},
          check |-> {St("check", t, sp, <<"", "same">>, <<>>, cn, "e1") : cn \in CNames},
          fk |-> {St("fk", t, sp, <<"", "same">>, l, cn, "") : l \in one \cup two, cn \in CNames},
          index |-> {St("index", t, sp, <<"", "same">>, [i \in DOMAIN l |-> <<l[i], IF i = 1 THEN d ELSE "ASC">>], "i1", u) :
@@ -256,6 +256,7 @@ FlagsOnNamedColumn ==
 Bucket(k) == CASE k = "table" -> "tables" [] k = "sequence" -> "sequences" [] k = "type" -> "types"
                [] k = "domain" -> "domains" [] k = "schema" -> "schemas" [] k = "tablespace" -> "tablespaces"
                [] k = "database" -> "databases" [] k = "ddl_property" -> "ddl_properties"
+               [] k = "liketable" -> "tables"      \* CREATE TABLE zlike LIKE <table>: a table entity without columns, never a target here
 AlwaysBuckets == {"tables", "types", "sequences", "domains", "schemas", "ddl_properties"}
 \* the mechanism (Output.group_by_type_result): the FIRST key of keys_map present in the entity dict selects the bucket
 MarkerOrder == <<"table_name", "sequence_name", "type_name", "domain_name", "schema_name", "tablespace_name", "database_name", "value">>
@@ -264,7 +265,7 @@ BucketOfKey == [table_name |-> "tables", sequence_name |-> "sequences", type_nam
 \* marker keys each entity kind carries (checked against the real entity dicts by the harness)
 Markers(k) == CASE k = "table" -> {"table_name"} [] k = "sequence" -> {"sequence_name"} [] k = "type" -> {"type_name"}
                 [] k = "domain" -> {"domain_name"} [] k = "schema" -> {"schema_name"} [] k = "tablespace" -> {"tablespace_name"}
-                [] k = "database" -> {"database_name"} [] k = "ddl_property" -> {"value"}
+                [] k = "database" -> {"database_name"} [] k = "ddl_property" -> {"value"} [] k = "liketable" -> {"table_name"}
 MechBucket(k) == LET i == CHOOSE i \in DOMAIN MarkerOrder : MarkerOrder[i] \in Markers(k) /\ \A j \in 1..(i-1) : MarkerOrder[j] \notin Markers(k)
                  IN  BucketOfKey[MarkerOrder[i]]
 BucketRuleAgrees == \A i \in DOMAIN ents : MechBucket(ents[i].kind) = Bucket(ents[i].kind)
